@@ -132,21 +132,29 @@ func runSerClosed(c *core.Ctx) {
 			"bytes reach the hashed buffer outside the escaper's three branches: "+strings.Join(bad, "; ")+" — characters that NIP-01 requires escaped (or verbatim) are hashed in another form")
 	}
 	// Serialize hands strings to the buffer only through the escaper / AppendInt
+	// (module helpers that Serialize splits its work into are part of the closure: every
+	// append they perform was checked above, so only callees outside the module count)
+	inClosure := map[*ssa.Function]bool{}
+	for _, f := range fns {
+		inClosure[f] = true
+	}
 	var bad []string
-	for _, ci := range calls(ser) {
-		call, ok := ci.(*ssa.Call)
-		if !ok || len(call.Call.Args) == 0 || !isBuf(call.Call.Args[0]) {
-			continue
+	for _, fn := range fns {
+		for _, ci := range calls(fn) {
+			call, ok := ci.(*ssa.Call)
+			if !ok || len(call.Call.Args) == 0 || !isBuf(call.Call.Args[0]) {
+				continue
+			}
+			if _, isBuiltin := call.Call.Value.(*ssa.Builtin); isBuiltin {
+				continue
+			}
+			sc := an.StaticCallee(&call.Call)
+			n := an.CalleeName(&call.Call)
+			if (sc != nil && inClosure[sc]) || n == "strconv.AppendInt" {
+				continue
+			}
+			bad = append(bad, n)
 		}
-		if _, isBuiltin := call.Call.Value.(*ssa.Builtin); isBuiltin {
-			continue
-		}
-		sc := an.StaticCallee(&call.Call)
-		n := an.CalleeName(&call.Call)
-		if (sc != nil && sc == esc) || n == "strconv.AppendInt" {
-			continue
-		}
-		bad = append(bad, n)
 	}
 	c.Check(esc != nil && len(bad) == 0, nil, fname(c, ser), "writers", P.Pos(ser.Pos()), "the buffer is extended only by the escaper and strconv.AppendInt", fmt.Sprintf("the hashed buffer is extended by %v", bad))
 }
